@@ -380,6 +380,8 @@ class Engine:
         """Evaluate a contract expression (Python syntax) in state `st`."""
         tree = self.world.parse_spec_expr(text)
         s = st.copy()
+        if st.yields is not None and 'yields' not in s.env:
+            s.env['yields'] = st.yields
         if extra_env:
             s.env.update(extra_env)
         s.guards = []
@@ -708,6 +710,11 @@ class Engine:
         s1.pc.append(c)
         s2 = st.copy()
         s2.pc.append(z3.Not(c))
+        f1_ok, f2_ok = self.feasible(s1), self.feasible(s2)
+        if not f1_ok and f2_ok:
+            return outs + (self.exec_block(s.orelse, s2) if s.orelse else [Outcome('fall', s2)])
+        if not f2_ok and f1_ok:
+            return outs + self.exec_block(s.body, s1)
         o1 = self.exec_block(s.body, s1)
         o2 = self.exec_block(s.orelse, s2) if s.orelse else [Outcome('fall', s2)]
         f1 = [o for o in o1 if o.kind == 'fall']
@@ -718,6 +725,17 @@ class Engine:
             if m is not None:
                 return outs + rest + [Outcome('fall', m)]
         return outs + rest + f1 + f2
+
+    def feasible(self, st):
+        """Cheap pruning: a path whose condition is unsatisfiable (without any axioms) is dropped. Sound: only
+        paths with an unsat path condition are pruned; 'unknown' keeps the path."""
+        if self.spec_mode:
+            return True
+        sol = z3.Solver()
+        sol.set('timeout', 150)
+        for a in st.pc:
+            sol.add(a)
+        return sol.check() != z3.unsat
 
     def merge(self, c, a: State, b: State, base):
         """Merge two fall-through states that forked on `c` at pc index `base`."""
@@ -842,8 +860,21 @@ class Engine:
         return names, fields, calls
 
     def loop_spec(self, node, var):
-        self.loop_ord += 1
-        k = self.loop_ord
+        if not hasattr(self, '_loop_ids'):
+            # ordinal = position of the loop in source order (nested function bodies excluded)
+            self._loop_ids = {}
+
+            def walk(n):
+                for ch in ast.iter_child_nodes(n):
+                    if isinstance(ch, (ast.FunctionDef, ast.Lambda)):
+                        continue
+                    if isinstance(ch, (ast.For, ast.While)):
+                        self._loop_ids[id(ch)] = len(self._loop_ids) + 1
+                    walk(ch)
+            walk(self.fnode)
+        k = self._loop_ids.get(id(node))
+        if k is None:
+            self._loop_ids[id(node)] = k = len(self._loop_ids) + 1
         spec = self.c.loops.get(k)
         if spec is None:
             raise Unsupported(f'loop #{k} (line {node.lineno}) has no invariant in the contract', node)
@@ -1000,6 +1031,9 @@ class Engine:
             self.assign(s.target.elts[1], elem, sb)
         else:
             self.assign(s.target, elem, sb)
+        for fact in spec.get('assume_elem', []):
+            # facts about every element of the iterated sequence (part of the producing generator's assumed contract)
+            sb.pc.append(self.spec_bool(fact, sb))
         result = outs0 + [Outcome('fall', se)]
         for o in self.exec_block(s.body, sb):
             if o.kind in ('fall', 'continue'):
@@ -1292,8 +1326,19 @@ class Engine:
                      ast.BitAnd: operator.and_}
             if type(op) in table:
                 return const_value(table[type(op)](x, y))
+        if isinstance(op, ast.Add):
+            if isinstance(a, VPy) and isinstance(a.obj, (list, tuple)) and isinstance(b, V) and isinstance(b.t, TSeq):
+                a = self.coerce(a, b.t, node)
+            elif isinstance(b, VPy) and isinstance(b.obj, (list, tuple)) and isinstance(a, V) and isinstance(a.t, TSeq):
+                b = self.coerce(b, a.t, node)
         if not (isinstance(a, V) and isinstance(b, V)):
             raise Unsupported(f'binary operator on {a!r}, {b!r}', node)
+        if isinstance(a.t, TOpt) and a.t.inner in (INT, REAL):
+            self.may_raise(st, 'TypeError', a.t.is_none(a.term), 'arithmetic on None')
+            a = V(a.t.inner, a.t.val(a.term))
+        if isinstance(b.t, TOpt) and b.t.inner in (INT, REAL):
+            self.may_raise(st, 'TypeError', b.t.is_none(b.term), 'arithmetic on None')
+            b = V(b.t.inner, b.t.val(b.term))
         if isinstance(op, (ast.BitAnd, ast.BitOr, ast.BitXor)):
             if a.t == BOOL and b.t == BOOL:
                 return V(BOOL, {ast.BitAnd: z3.And, ast.BitOr: z3.Or, ast.BitXor: z3.Xor}[type(op)](a.term, b.term))
